@@ -1962,7 +1962,15 @@ def _run_streams(ctx: Ctx, rng) -> None:
 
 def replay(ctx: Ctx, path: str) -> None:
     data = json.load(open(path))["replay"]
-    if "history" in data:
+    if "postsel" in data and "postsel_model" not in data:
+        print("replay: a PostSelection history recorded before replays carried the model form; rerun the check with the seed")
+        return
+    if "postsel_model" in data:
+        import postsel
+
+        probs = postsel.replay_case(ctx, data)
+        ctx.case("replay", True)
+    elif "history" in data:
         probs, _ = run_history(ctx, data["history"])
         ctx.case("replay", True, sample=data["history"])
     elif "prog" in data.get("case", {}) and "det" in data["case"]:
